@@ -404,12 +404,14 @@ def _o3(ctx, comp):
                         ctx.bad("O3", f"{comp.rm.rel}|compile_pattern|{d}.{k.arg}|{txt}", f"capture name `{txt}` is not checked with _nonconst", comp.rm.rel, c.lineno,
                                 witness="(match x [a #* None] 1) / (match x {\"k\" 1 #** None} 1): ValueError from compile()")
     ct = comp.rm.func("compile_try_expression")
-    a = pyq.contains(ct, lambda n: isinstance(n, ast.Assign) and norm(n.targets[0]) == "name" and isinstance(n.value, ast.Call) and ("mangle" in norm(n.value) or "_nonconst" in norm(n.value) or "str(" in norm(n.value)))
-    if a is None:
-        ctx.unres("O3", f"{comp.rm.rel}|compile_try_expression|except-name|_nonconst", "the statement that normalises the except variable was not recognised")
-        a = ast.parse("name = None").body[0]
-    ctx.check("_nonconst" in norm(a.value), "O3", f"{comp.rm.rel}|compile_try_expression|except-name|_nonconst", "the except variable is not checked with _nonconst",
-              comp.rm.rel, a.lineno, witness="(try 1 (except [None E] 2))", detail=norm(a.value))
+    # the except variable: the name handed to scope.add(NAME, ...) inside the handler loop; the value it was given
+    adds = [c for c in pyq.calls(ct) if isinstance(c.func, ast.Attribute) and c.func.attr == "add" and len(c.args) == 2 and isinstance(c.args[0], ast.Name)]
+    ev = adds[0].args[0].id if adds else None
+    defs = [n for n in ast.walk(ct) if isinstance(n, ast.Assign) and any(isinstance(x, ast.Name) and x.id == ev for t in n.targets for x in ast.walk(t))
+            and isinstance(n.value, ast.Call) and any(isinstance(c, ast.Call) and (dotted(c.func) or "").split(".")[-1] in ("mangle", "_nonconst", "str") for c in ast.walk(n.value))] if ev else []
+    verdict = None if not defs else all(any(isinstance(c, ast.Call) and (dotted(c.func) or "").endswith("_nonconst") for c in ast.walk(n.value)) for n in defs)
+    ctx.decide("O3", f"{comp.rm.rel}|compile_try_expression|except-name|_nonconst", verdict, "the except variable is not checked with _nonconst",
+               comp.rm.rel, defs[0].lineno if defs else ct.lineno, witness="(try 1 (except [None E] 2))", detail=norm(defs[0].value) if defs else "")
     # AugAssign target kinds
     ag = comp.rm.func("compile_augassign_expression")
     ctx.require(ag is not None, "compile_augassign_expression not found")
